@@ -47,6 +47,8 @@ PROPS = {
             "rule": PIPE_RULE},
     "C17": {"lean": ["C17"], "expected": ["Tables", "Wiring"], "streams": [{"name": "pipe", "gen": "pipe", "args": {"focus": "twins"}}],
             "rule": PIPE_RULE},
+    "C16": {"lean": ["C16"], "expected": ["Tables"], "streams": [{"name": "dialog", "gen": "dialog"}],
+            "rule": "exhaustive assignments of Call-ID, tags and URIs from small alphabets x both orientations x request/response x decorations, plus random long identifiers; oracle: bijection between abstract dialog keys and implementation identifiers; non-trivial = identifier produced"},
     "C14": {
         "lean": ["C14"], "expected": ["Tables"],
         "streams": [STD, {"name": "codec", "gen": "codec"}],
